@@ -249,6 +249,7 @@ cdef class _EigenBasisTransform:
         return self._evecs
 
     cdef Data _inv(self, double t):
+        self._compute_eigen(t)
         if self._evecs_inv is None:
             self._evecs_inv = self.evecs(t).adjoint()
         return self._evecs_inv
